@@ -25,7 +25,7 @@ claim("C09",
 
 claim("C10",
       "SemVerOrder.tla transcribes SemVer 2.0.0 section 11 on parsed values; TLC shows it reflexive, antisymmetric, total, transitive and 'equal iff same' on the stated universe, and emits one row per ordered pair (some with build metadata) that the harness replays through SemVer::from_str, Ord and PartialEq; random comparisons with numbers up to u64, sort() results and GitUtils::find_max_version_tag results recorded from the code are validated by TLC.",
-      "Exhaustive over {0,1,2,10}^3 + 2 cores x identifier lists <= 2 (quick) / 3 (thorough) over {0 2 10 A a a0}; random beyond.",
+      "Exhaustive over {0,1,2,10}^3 + 2 cores x identifier lists <= 2 (quick) / 3 (thorough) over {0 2 10 A a a0 B -}; random beyond.",
       GEN, "DESIGN.md 5/C10")
 claim("C11",
       "Pep440Order.tla is the key fixed by the property; TLC shows the order laws, the pre < dev < final < post chain and spelling independence (each of three spellings of every universe value parses with Pep440Grammar to a key-equal value) on a 512-value universe, and emits one row per ordered pair in varied spellings for PEP440::from_str, Ord and PartialEq; random structured comparisons, sorts and max-tag selections recorded from the code are validated by TLC.",
